@@ -224,30 +224,43 @@ def run_tlc(module, cfg_path, workdir, workers=NPROC, simulate=None, depth=None,
 
 # ----------------------------------------------------------------------------- behaviours
 
+def _hash_chunk(lines):
+    finals, prefixes = [], set()
+    for line in lines:
+        steps = json.loads(line)
+        h = hashlib.blake2b(digest_size=8)
+        last = None
+        for st in steps:
+            if last is not None:
+                prefixes.add(last)
+            h.update(json.dumps(st, sort_keys=True).encode())
+            last = h.digest()
+        finals.append(last)
+    return finals, prefixes
+
+
 def dedup_prefixes(src, dst, keep=None, sample=None, rnd=None):
     """Drops every behaviour that is a proper prefix of another emitted behaviour, then applies the
     optional `keep(steps)` filter and an optional random sample. Returns (n_in, n_maximal, n_out)."""
-    prefix_hashes = set()
-    full = []
-    n_in = 0
+    import multiprocessing
     with open(src) as f:
-        for line in f:
-            line = line.strip()
-            if not line:
-                continue
-            n_in += 1
-            steps = json.loads(line)
-            h = hashlib.blake2b(digest_size=8)
-            hs = []
-            for st in steps:
-                h.update(json.dumps(st, sort_keys=True).encode())
-                hs.append(h.digest())
-            for x in hs[:-1]:
-                prefix_hashes.add(x)
-            full.append((hs[-1], line))
+        lines = [l.strip() for l in f if l.strip()]
+    n_in = len(lines)
+    if n_in > 20000:
+        step = max(2000, n_in // (NPROC * 4))
+        chunks = [lines[i:i + step] for i in range(0, n_in, step)]
+        with multiprocessing.Pool(NPROC) as pool:
+            parts = pool.map(_hash_chunk, chunks)
+    else:
+        parts = [_hash_chunk(lines)]
+    prefix_hashes = set()
+    finals = []
+    for fin, pre in parts:
+        finals.extend(fin)
+        prefix_hashes |= pre
     seen = set()
     maximal = []
-    for hk, line in full:
+    for hk, line in zip(finals, lines):
         if hk in prefix_hashes or hk in seen:
             continue
         seen.add(hk)
